@@ -327,6 +327,129 @@ fn check_linspace(ctx: &mut Ctx, bound: i64) {
     }
 }
 
+/// beyond the small scope (DESIGN 5.14): long progressions (255, 256, 257, 1000 elements), starts of
+/// magnitude 2^40 (still exact in f64, which the element count is formed in), long linspaces, long
+/// collections and buffer writes
+fn check_large(ctx: &mut Ctx) {
+    let fam = "generators-large";
+    let counts = [0i64, 1, 2, 255, 256, 257, 1000];
+    for a in [0i64, -3, 1 << 40, -(1i64 << 40)] {
+        for st in [1i64, 2, 3, 7, -1, -2, -7] {
+            for n in counts {
+                for slack in [0i64, 1] {
+                    // end = a + st*n exactly, or one step-fraction short of it (same element count when |st| > 1)
+                    let b = a + st * n - if slack == 1 && st.abs() > 1 && n > 0 { st.signum() } else { 0 };
+                    let want: Vec<Cell> = (0..n).map(|j| Cell::I(a + j * st)).collect();
+                    for c in [Cont::Probe, Cont::Vec, Cont::Array] {
+                        ctx.states += 1;
+                        ctx.fam(fam).states += 1;
+                        ctx.transitions += 1;
+                        ctx.nontrivial(fam, hash_bytes(format!("i64{a},{b},{st}").as_bytes()));
+                        let got = range_i64(c, a, b, st);
+                        ctx.eval(fam, outcome_hash(&got));
+                        if matches!(&got, Outcome::Ok(g) if cells_eq(g, &want, exact_eq)) {
+                            ctx.traces += 1;
+                        } else {
+                            let glen = match &got { Outcome::Ok(g) => g.len() as i64, _ => -1 };
+                            viol(ctx, "range(integers, long)", None, json!({"family": fam, "type": "i64", "container": format!("{c:?}"), "start": a, "end": b, "step": st}), format!("{n} elements {}..", a), format!("{glen} elements: {}", truncate(&show_outcome(&got), 120)));
+                        }
+                    }
+                }
+            }
+        }
+    }
+    for (a, st) in [(0.0f64, 0.5f64), (-2.25, 0.25), (10.0, -0.75)] {
+        for n in counts {
+            let b = a + st * n as f64;
+            let want: Vec<Cell> = (0..n).map(|j| Cell::f(a + j as f64 * st)).collect();
+            for c in [Cont::Probe, Cont::Vec, Cont::Polars] {
+                ctx.states += 1;
+                ctx.transitions += 1;
+                let got = range_f64(c, a, b, st);
+                ctx.eval(fam, outcome_hash(&got));
+                if matches!(&got, Outcome::Ok(g) if cells_eq(g, &want, exact_eq)) {
+                    ctx.traces += 1;
+                } else {
+                    viol(ctx, "range(floats, long)", None, json!({"family": fam, "container": format!("{c:?}"), "start": a, "end": b, "step": st}), format!("{n} elements"), truncate(&show_outcome(&got), 160));
+                }
+            }
+        }
+    }
+    for (a, b) in [(0.0f64, 1.0f64), (-3.0, 5.0), (2.0, -2.0)] {
+        for n in [255usize, 256, 257, 1000] {
+            for c in [Cont::Probe, Cont::Vec, Cont::Polars] {
+                ctx.states += 1;
+                ctx.transitions += 1;
+                let got = linspace_f64(c, a, b, n);
+                ctx.eval(fam, outcome_hash(&got));
+                let ok = match &got {
+                    Outcome::Ok(g) => {
+                        let v: Vec<f64> = g.iter().filter_map(|c| c.num()).collect();
+                        let step = (b - a) / (n as f64 - 1.0);
+                        v.len() == n && v[0] == a && close(v[n - 1], b) && v.iter().enumerate().all(|(j, x)| close(*x, a + j as f64 * step))
+                    }
+                    _ => false,
+                };
+                if ok {
+                    ctx.traces += 1;
+                } else {
+                    viol(ctx, "linspace(floats, long)", None, json!({"family": fam, "container": format!("{c:?}"), "start": a, "end": b, "n": n}), format!("{n} points from {a} to {b}, constant step"), truncate(&show_outcome(&got), 160));
+                }
+            }
+        }
+    }
+    // long collections: every collector into every container; an error near the end
+    for len in [255usize, 256, 257, 300] {
+        let list: Vec<X> = (0..len).map(|i| if i % 7 == 3 { None } else { Some(i as f64) }).collect();
+        let want: Vec<Cell> = list.iter().map(|x| Cell::of(*x)).collect();
+        for c in CONTS {
+            for how in ["collect_vec1", "collect_trusted_vec1", "collect_vec1_with_len", "collect_vec1_opt(nulls)"] {
+                ctx.states += 1;
+                ctx.transitions += 1;
+                let got = collect(c, how, &list);
+                ctx.eval(fam, outcome_hash(&got));
+                if matches!(&got, Outcome::Ok(g) if cells_eq(g, &want, exact_eq)) {
+                    ctx.traces += 1;
+                } else {
+                    viol(ctx, how, None, json!({"family": fam, "container": format!("{c:?}"), "list_len": len}), format!("the list of {len} items"), truncate(&show_outcome(&got), 160));
+                }
+            }
+            if c != Cont::Probe {
+                for trusted in [false, true] {
+                    for errs in [vec![len - 1], vec![255.min(len - 1), len - 1]] {
+                        ctx.states += 1;
+                        ctx.transitions += 1;
+                        let got = try_collect(c, trusted, &list, &errs);
+                        let ok = matches!(&got, Outcome::Ok(Err(m)) if m.contains(&format!("e{}", errs[0])));
+                        if ok {
+                            ctx.traces += 1;
+                        } else {
+                            viol(ctx, if trusted { "try_collect_trusted_vec1" } else { "try_collect_vec1" }, None, json!({"family": fam, "container": format!("{c:?}"), "list_len": len, "errors_at": errs}), format!("Err(e{}) - the first error", errs[0]), truncate(&format!("{got:?}"), 160));
+                        }
+                    }
+                }
+            }
+        }
+    }
+    for (bl, il) in [(256usize, 256usize), (257, 257), (256, 1), (257, 1), (256, 255), (256, 257), (300, 2)] {
+        ctx.states += 1;
+        ctx.transitions += 1;
+        let want: Result<Vec<Cell>, ()> = if il == bl { Ok((0..il).map(|i| Cell::F(10.0 + i as f64)).collect()) } else if il == 1 { Ok(vec![Cell::F(10.0); bl]) } else { Err(()) };
+        let got = write_iter(bl, il);
+        ctx.eval(fam, hash_bytes(format!("{got:?}").as_bytes()));
+        let ok = match (&got, &want) {
+            (Outcome::Ok((true, cells, faults, _)), Ok(w)) => faults.is_empty() && cells_eq(cells, w, exact_eq),
+            (Outcome::Ok((false, _, faults, writes)), Err(())) => faults.is_empty() && *writes == 0,
+            _ => false,
+        };
+        if ok {
+            ctx.traces += 1;
+        } else {
+            viol(ctx, "write_trust_iter", None, json!({"family": fam, "buffer_len": bl, "iter_len": il}), truncate(&format!("{want:?}"), 80), truncate(&format!("{got:?}"), 160));
+        }
+    }
+}
+
 fn check_collectors(ctx: &mut Ctx, max_len: usize) {
     let fam = "collectors";
     for len in 0..=max_len {
@@ -495,6 +618,9 @@ fn main() {
     }
     if only.as_deref().map_or(true, |f| f == "checked-set") {
         check_set(&mut ctx, max_len);
+    }
+    if only.as_deref().map_or(true, |f| f == "generators-large") {
+        check_large(&mut ctx);
     }
     if let Some(stored) = replay {
         std::process::exit(finish_replay(&run, &stored, ctx));
